@@ -85,6 +85,20 @@ def silentFrom (b0 : Bool) (ops : List Op) (T id : String) : Bool :=
 
 def silent (ops : List Op) (T id : String) : Bool := silentFrom false ops T id
 
+/-! ### the alert node -/
+
+/-- The level an alert id stands at after one more point, as far as topics and handlers are concerned: the
+level of the point — except that with `noRecoveries` an OK point leaves the alert standing. (`stateChangesOnly`
+only thins out repeats, it never changes the level.) -/
+def nodeLevelStep (noRec : Bool) (id : String) (L : Nat) : NOp → Nat
+  | .point i l _ => if i = id then (if l = 0 ∧ noRec = true then L else l) else L
+  | .taskRestart => L
+
+def nodeLevelFrom (noRec : Bool) (L0 : Nat) (ops : List NOp) (id : String) : Nat :=
+  ops.foldl (nodeLevelStep noRec id) L0
+
+def nodeLevel (noRec : Bool) (ops : List NOp) (id : String) : Nat := nodeLevelFrom noRec 0 ops id
+
 /-- Observed levels. -/
 abbrev Lv := String → String → Nat
 
